@@ -130,8 +130,18 @@ func NewRaftGroup(id uuid.UUID, nodeIds []uint64, storage wal.WAL, transport *Ra
 		return nil, err
 	}
 
+	// The membership as of the stored snapshot: the entries that led to it are
+	// compacted away and will not be applied again.
+	var raftConfState *raftpb.ConfState
+	if _, confState, err := storage.InitialState(); err != nil {
+		return nil, err
+	} else if len(confState.Nodes) > 0 {
+		raftConfState = &confState
+	}
+
 	g := &RaftGroup{
 		id:                id,
+		raftConfState:     raftConfState,
 		transport:         transport,
 		ctx:               ctx,
 		ctxCancel:         ctxCancel,
@@ -281,6 +291,10 @@ func (this *RaftGroup) run() {
 				if rd.Snapshot.Metadata.Index > lastAppliedIdx {
 					lastAppliedIdx = rd.Snapshot.Metadata.Index
 				}
+				// The snapshots this replica takes from here on must record the
+				// membership that came with this one, not the one it had before.
+				confState := rd.Snapshot.Metadata.ConfState
+				this.raftConfState = &confState
 				verifEvent(this, "snapshotInstalled", rd.Snapshot.Metadata.Index)
 			}
 			for _, entry := range rd.CommittedEntries {
